@@ -328,6 +328,24 @@ def _accumulate_loops(tree):
                         and isinstance(prev.value, ast.List) and not prev.value.elts:
                     x = prev.targets[0].id
                     body, conds = list(st.body), []
+                    # leading `y = e` with fresh plain names are substituted into what follows (as in N13)
+                    lead = []
+                    while len(body) > 1 and isinstance(body[0], ast.Assign) and len(body[0].targets) == 1 and isinstance(body[0].targets[0], ast.Name) \
+                            and body[0].targets[0].id != x and body[0].targets[0].id not in {n.id for n in ast.walk(st.target) if isinstance(n, ast.Name)} \
+                            and body[0].targets[0].id not in [a.targets[0].id for a in lead] \
+                            and not any(isinstance(n, (ast.Yield, ast.YieldFrom, ast.Await, ast.NamedExpr)) for n in ast.walk(body[0])):
+                        lead.append(body[0])
+                        body = body[1:]
+                    if lead:
+                        body = copy.deepcopy(body)
+                        for _ in range(len(lead)):
+                            for a in reversed(lead):
+                                body = [_SubstName(a.targets[0].id, a.value).visit(b_) for b_ in body]
+                        # the substituted names must not be needed after the loop
+                        after = lst[lst.index(st) + 1:]
+                        if any(isinstance(n, ast.Name) and n.id in {a.targets[0].id for a in lead} for s_ in after for n in ast.walk(s_)) \
+                                or any(isinstance(n, ast.Name) and isinstance(n.ctx, ast.Store) and n.id in {a.targets[0].id for a in lead} for b_ in body for n in ast.walk(b_)):
+                            body = [ast.Pass(), ast.Pass(), ast.Pass()]  # leave the loop alone
                     while True:
                         if len(body) == 1 and isinstance(body[0], ast.If) and not body[0].orelse:
                             conds.append(body[0].test)
@@ -355,13 +373,61 @@ def _accumulate_loops(tree):
 
 
 def _stored_names(stmts):
-    return {n.id for s in stmts for n in ast.walk(s) if isinstance(n, ast.Name) and isinstance(n.ctx, (ast.Store, ast.Del))}
+    """names (re)bound by the statements in the enclosing function's scope; comprehension variables live in their own scope"""
+    out = set()
+
+    def walk(n):
+        if isinstance(n, (ast.ListComp, ast.SetComp, ast.DictComp, ast.GeneratorExp, ast.Lambda)):
+            # only the outermost iterable is evaluated in the enclosing scope, and it cannot bind (walrus aside)
+            for x in ast.walk(n):
+                if isinstance(x, ast.NamedExpr) and isinstance(x.target, ast.Name):
+                    out.add(x.target.id)
+            return
+        if isinstance(n, ast.Name) and isinstance(n.ctx, (ast.Store, ast.Del)):
+            out.add(n.id)
+        for c in ast.iter_child_nodes(n):
+            walk(c)
+    for s in stmts:
+        walk(s)
+    return out
 
 
 def _loops_over_generators(tree):
     """N12: `for T in (ELT for GT in IT if C): BODY` is `for GT in IT:` + guard `if not C: continue` + `T = ELT` + BODY (a generator expression is
     consumed lazily, so the interleaving is the same).  When T and ELT are plain names / equally long tuples of plain names that BODY does
     not re-bind, BODY simply reads the ELT names."""
+    # a generator expression bound to a local that is consumed by exactly one `for` of the same block is written at that `for`
+    for fn in ast.walk(tree):
+        if not isinstance(fn, (ast.FunctionDef, ast.AsyncFunctionDef)):
+            continue
+        uses = {}
+        for n in ast.walk(fn):
+            if isinstance(n, ast.Name):
+                uses.setdefault(n.id, []).append(n)
+        for holder in ast.walk(fn):
+            for f in ("body", "orelse", "finalbody"):
+                lst = getattr(holder, f, None)
+                if not (isinstance(lst, list) and lst and isinstance(lst[0], ast.stmt)):
+                    continue
+                drop = []
+                for i, st in enumerate(lst):
+                    if not (isinstance(st, ast.Assign) and len(st.targets) == 1 and isinstance(st.targets[0], ast.Name) and isinstance(st.value, ast.GeneratorExp)):
+                        continue
+                    x = st.targets[0].id
+                    if len(uses.get(x, [])) != 2:
+                        continue
+                    reads = {n.id for n in ast.walk(st.value) if isinstance(n, ast.Name)}
+                    for later in lst[i + 1:]:
+                        if isinstance(later, ast.For) and isinstance(later.iter, ast.Name) and later.iter.id == x:
+                            later.iter = st.value
+                            drop.append(st)
+                            break
+                        # statements in between must not re-bind what the generator reads (mutation of the objects themselves is not tracked)
+                        if isinstance(later, (ast.FunctionDef, ast.AsyncFunctionDef, ast.ClassDef, ast.Return, ast.Raise)) or (_stored_names([later]) & reads) \
+                                or any(isinstance(n, ast.Name) and n.id == x for n in ast.walk(later)):
+                            break
+                if drop:
+                    setattr(holder, f, [s_ for s_ in lst if s_ not in drop])
     for node in ast.walk(tree):
         if not (isinstance(node, ast.For) and isinstance(node.iter, ast.GeneratorExp) and len(node.iter.generators) == 1 and not node.iter.generators[0].is_async):
             continue
@@ -386,8 +452,65 @@ def _loops_over_generators(tree):
     return tree
 
 
+def _search_loops(tree):
+    """N13: `for T in IT: [x = e]* if C: return False` directly followed by `return True` is `return all(not C for T in IT)` (and the dual
+    with any); the locals x are substituted into C.  Only when the loop has no else and nothing else in its body."""
+    owners = {}
+    for fn in ast.walk(tree):
+        if isinstance(fn, (ast.FunctionDef, ast.AsyncFunctionDef)):
+            for n in ast.walk(fn):
+                owners.setdefault(id(n), fn.name) if n is not fn else None
+    for holder in ast.walk(tree):
+        for f in ("body", "orelse", "finalbody"):
+            lst = getattr(holder, f, None)
+            if not (isinstance(lst, list) and lst and isinstance(lst[0], ast.stmt)):
+                continue
+            me = holder.name if isinstance(holder, (ast.FunctionDef, ast.AsyncFunctionDef)) else owners.get(id(holder))
+            out = []
+            i = 0
+            while i < len(lst):
+                st = lst[i]
+                nxt = lst[i + 1] if i + 1 < len(lst) else None
+                done = False
+                if isinstance(st, ast.For) and not st.orelse and isinstance(nxt, ast.Return) and isinstance(nxt.value, ast.Constant) and isinstance(nxt.value.value, bool) \
+                        and st.body and isinstance(st.body[-1], ast.If) and not st.body[-1].orelse and len(st.body[-1].body) == 1 \
+                        and isinstance(st.body[-1].body[0], ast.Return) and isinstance(st.body[-1].body[0].value, ast.Constant) \
+                        and st.body[-1].body[0].value.value is (not nxt.value.value) \
+                        and all(isinstance(a, ast.Assign) and len(a.targets) == 1 and isinstance(a.targets[0], ast.Name) for a in st.body[:-1]):
+                    test = copy.deepcopy(st.body[-1].test)
+                    names = [a.targets[0].id for a in st.body[:-1]]
+                    tnames = {n.id for n in ast.walk(st.target) if isinstance(n, ast.Name)}
+                    recursive = any(isinstance(c, ast.Call) and ((isinstance(c.func, ast.Name) and c.func.id == me) or (isinstance(c.func, ast.Attribute) and c.func.attr == me))
+                                    for c in ast.walk(st))  # a recursive search is control structure, not a predicate over the items
+                    ok = len(set(names)) == len(names) and not (set(names) & tnames) and not recursive \
+                        and not any(isinstance(n, (ast.Yield, ast.YieldFrom, ast.Await, ast.NamedExpr)) for n in ast.walk(st))
+                    if ok:
+                        for a in reversed(st.body[:-1]):
+                            test = _SubstName(a.targets[0].id, a.value).visit(test)
+                        # earlier locals may occur in later ones' values: substitute until none is left
+                        for _ in range(len(names)):
+                            for a in reversed(st.body[:-1]):
+                                test = _SubstName(a.targets[0].id, a.value).visit(test)
+                        if nxt.value.value:  # ... return False inside, True after: all(not C)
+                            elt, fn_ = _test(ast.UnaryOp(op=ast.Not(), operand=test)), "all"
+                        else:
+                            elt, fn_ = _test(test), "any"
+                        gen = ast.GeneratorExp(elt=elt, generators=[ast.comprehension(target=st.target, iter=st.iter, ifs=[], is_async=0)])
+                        call = ast.Call(func=ast.Name(id=fn_, ctx=ast.Load()), args=[gen], keywords=[])
+                        out.append(ast.copy_location(ast.Return(value=ast.copy_location(call, st)), st))
+                        ast.fix_missing_locations(out[-1])
+                        i += 2
+                        done = True
+                if not done:
+                    out.append(st)
+                    i += 1
+            setattr(holder, f, out)
+    return tree
+
+
 def normalise(tree: ast.AST) -> ast.AST:
     tree = Normalise().visit(tree)
+    tree = _search_loops(tree)
     tree = _loops_over_generators(tree)
     tree = _accumulate_loops(tree)
     tree = _defaultdict_groups(tree)
